@@ -78,7 +78,7 @@ def run(spec: str | Path, cfg: str | Path | None = None, *, cfg_text: str | None
     props = [f"-DTLA-Library={SPEC}:{workdir}"]
     if dfs:
         props.append("-Dtlc2.tool.queue.IStateQueue=StateDeque")
-    cmd = ["java", f"-Xmx{heap}", "-XX:+UseParallelGC", *props, "-cp", JAR, "tlc2.TLC",
+    cmd = ["java", f"-Xmx{heap}", "-Xss1g", "-XX:+UseParallelGC", *props, "-cp", JAR, "tlc2.TLC",
            "-metadir", str(meta), "-noGenerateSpecTE", "-workers", str(workers), "-config", str(cfg_path)]
     if coverage and not simulate:
         cmd += ["-coverage", "1"]
